@@ -456,11 +456,22 @@ def ensure_extracted(ctx):
 # ---------------------------------------------------------------------------- findings, replay
 
 def load_findings():
+    """known_findings.json plus per-property fragments findings/<ID>.json (same entry format;
+    merged into known_findings.json by the coordinator)."""
+    res = []
     p = os.path.join(VERIF, "known_findings.json")
-    if not os.path.exists(p):
-        return []
-    with open(p) as f:
-        return json.load(f)["findings"]
+    if os.path.exists(p):
+        with open(p) as f:
+            res.extend(json.load(f)["findings"])
+    fd = os.path.join(VERIF, "findings")
+    if os.path.isdir(fd):
+        for name in sorted(os.listdir(fd)):
+            if name.endswith(".json"):
+                with open(os.path.join(fd, name)) as f:
+                    for e in json.load(f)["findings"]:
+                        if not any(x["id"] == e["id"] for x in res):
+                            res.append(e)
+    return res
 
 
 def repo_rev():
